@@ -82,7 +82,11 @@ def run(ctx):
         lf = rnd.choice([0.0, rnd.uniform(-0.5, 0.5)])
         kw = dict(test=test, num_RC=num_RC, add_capacitance=C, add_inductance=L, admittance=adm, log_F_ext=lf, num_F_ext_evaluations=0, num_procs=1)
         taus = KU._generate_time_constants(2 * np.pi * f, num_RC, lf)
-        if not (conditioning(test, f, Z, taus, C, L, adm) < 1e8):
+        # complex-inv inverts its normal equations without any singular-value cut-off and is observed to be invariant at every
+        # condition number; all other variants go through lstsq/pinv, whose relative cut-off makes them scale dependent when
+        # the matrix is ill-conditioned (outside the property's quantifier)
+        cond_max = math.inf if test == "complex-inv" else 1e8
+        if not (conditioning(test, f, Z, taus, C, L, adm) < cond_max):
             ctx.count("metamorphic:skipped(ill-conditioned)")
             continue
         try:
@@ -91,8 +95,12 @@ def run(ctx):
             ctx.count("metamorphic:base-raised:" + type(e).__name__)
             continue
         p0 = params(base.circuit)
-        for what in ("Zscale", "fscale", "reverse"):
+        nth = {}
+        for what in ("Zscale", "fscale", "reverse", "Zscale", "fscale"):
             c = 10 ** rnd.uniform(-6, 6)
+            nth[what] = nth.get(what, 0) + 1
+            if nth[what] % 2 == 0:
+                c = rnd.choice([1e-6, 1e6, 1e-3, 1e3])      # the ends of the quantified range are exercised on every spectrum
             if what == "Zscale":
                 d2 = DataSet(f, c * Z)
             elif what == "fscale":
@@ -101,7 +109,7 @@ def run(ctx):
                 d2 = DataSet(f[::-1].copy(), Z[::-1].copy())
             desc = {**kw, "data": ident, "transformation": what, "factor": c}
             f2, Z2 = d2.get_frequencies(), d2.get_impedances()
-            if not (conditioning(test, f2, Z2, KU._generate_time_constants(2 * np.pi * f2, num_RC, lf), C, L, adm) < 1e8):
+            if not (conditioning(test, f2, Z2, KU._generate_time_constants(2 * np.pi * f2, num_RC, lf), C, L, adm) < cond_max):
                 ctx.count(f"metamorphic:{what}:skipped(ill-conditioned after the transformation)")
                 continue
             try:
